@@ -5,21 +5,28 @@ class C25(Spec):
     prop = "C25"
     drv = "drv_c25"
     harness = "h_c25"
-    required_theorems = ("C25.connect_disconnect_inverse",)
+    required_theorems = ("C25.connect_disconnect_inverse", "C25.reorg_lands", "C25.persisted_is_view",
+                         "C25.tip_is_max", "C25.tie_keeps_tip", "C25.accepted_closure", "C25.order_independent")
     partial = ()
     refuted = ()
     quick_timeout = 600
     thorough_timeout = 3600
-    level_text = ("Lean theorems about the model of ProcessBlock / orphan pool / connectBestChain / reorganizeChain "
-                  "(see Props/C25.lean); the model is tied to blockchain/ by a differential run: generated block trees "
+    level_text = ("Lean theorems about the model of ProcessBlock / orphan pool / connectBestChain / reorganizeChain: for EVERY "
+                  "finite tree of valid blocks and EVERY delivery sequence over it (any order, duplicates) that contains "
+                  "each block, if the heaviest block is unique and at least the margin above the finalised height then the "
+                  "best chain is its branch and the persisted main-chain state equals that of a fresh node fed only that "
+                  "branch in order (order_independent); plus reorg_lands, tip_is_max, the orphan lemma and "
+                  "connect/disconnect inverse, proved by induction over an invariant that holds for any delivered blocks. "
+                  "The model is tied to blockchain/ by a differential run: generated block trees "
                   "above a short trunk are minted on a producer testnode and delivered in generated orders (children before "
                   "parents, duplicates, interleaved branches) to fresh non-mining testnodes; per delivery the result and tip, "
                   "and per case height->hash, every total difficulty, orphan-pool membership and the sequence log are "
                   "compared with the Lean driver; the property predicate (tip = unique heaviest eligible branch; persisted "
                   "chain = fresh node fed the winning branch) is evaluated on the implementation.")
     level_note = ("all delivered blocks are valid (execution succeeds); index/orphan cache limits, orphan expiry, restart, "
-                  "EnableBestBlockCmp and a moving finaliser are outside the model; finalised height 0 (no finaliser "
-                  "configured) in the tie.")
+                  "EnableBestBlockCmp and a finaliser moving up during the run are outside the model (the model's downward "
+                  "reset is covered); finalised height 0 (no finaliser configured) in the tie; tx index / state at tip "
+                  "are compared on the implementation only (fresh-node snapshot), not modelled.")
     assumptions = (
         "delivered blocks are valid and execute successfully (invalid blocks are C27)",
         "index cache (102400), best-chain cache (10240), orphan pool limit (10240) and orphan expiry (10 min) are not reached",
